@@ -421,6 +421,17 @@ def check_group(case, rec):
     nfits = 0
     rebound = False
     for step, op in enumerate(case['ops']):
+        if op[0] == 'clone':
+            # the fitted group is copied (checkpoint / hand-over to another process) and the copy carries on
+            import copy as _copy
+            import pickle as _pickle
+            try:
+                with warnings.catch_warnings():
+                    warnings.simplefilter('ignore')
+                    bg = _copy.deepcopy(bg) if op[1] % 2 == 0 else _pickle.loads(_pickle.dumps(bg))
+            except Exception as exc:  # noqa
+                raise Violation('group-clone-raises', 'step %d: %s %s' % (step, type(exc).__name__, str(exc)[:120]))
+            continue
         if op[0] == 'fit':
             shape = op[1]
             base = [gen.render_signal(sg) for sg in case['signals']]
@@ -501,9 +512,22 @@ def strat_group(draw, tier):
             ops.append(['recompute', draw(st.sampled_from([None, 0.05, 0.2]))])
         elif draw(st.integers(0, 3)) == 0:
             ops.append(['rebind', draw(st.integers(0, 1)), draw(st.integers(0, 5))])
+        elif ops and draw(st.integers(0, 3)) == 0:
+            ops.append(['clone', draw(st.integers(0, 1))])
         else:
             shape = draw(st.sampled_from([[1], [2], [3], [1, 2], [2, 2], [2, 1], [3, 2]]))
             ops.append(['fit', shape, draw(st.integers(0, 4)), draw(st.sampled_from([1, 2]))])
+    if draw(st.integers(0, 3)) == 0:
+        # the tuning loop on a group: fit, replace / edit the thresholds (perhaps on a copy of the group), fit the same layout
+        # again, recompute the edges
+        shape = draw(st.sampled_from([[2], [3], [2, 2], [1, 2]]))
+        ops = [['fit', shape, draw(st.integers(0, 4)), 1]]
+        if draw(st.booleans()):
+            ops.append(['clone', draw(st.integers(0, 1))])
+        ops.append(draw(st.sampled_from([['rebind', 1, 0], ['rebind', 1, 4], ['set_threshold', 1, 0.125], ['set_threshold', 3, 0.125]])))
+        if draw(st.booleans()):
+            ops.append(['fit', shape, draw(st.integers(0, 4)), 1])
+        ops.append(['recompute', draw(st.sampled_from([None, 0.05]))])
     return {'fs': band['fs'], 'f_range': band['f_range'], 'signals': signals, 'settings': draw(st_settings(band)), 'ops': ops}
 
 
